@@ -1556,6 +1556,8 @@ func (gs *GossipSubRouter) sendRPC(p peer.ID, out *RPC, urgent bool) {
 		delete(gs.gossip, p)
 	}
 
+	verifObserveSendRPC(p, out)
+
 	q, ok := gs.p.peers[p]
 	if !ok {
 		return
